@@ -62,7 +62,10 @@ Is(r, c)    == E("isinst", c, 0, <<r>>)      \* isinstance(r, C)
 KW(n, e)    == E("kwarg", n, 0, <<e>>)       \* n=e  as an argument of a call (the pools only use it where n is
                                              \* the parameter at that position, so binding is positional)
 
-S(k, s, t, xs, d) == [k |-> k, s |-> s, t |-> t, xs |-> xs, d |-> d]
+S(k, s, t, xs, d) == [k |-> k, s |-> s, t |-> t, xs |-> xs, d |-> d, ps |-> <<>>, b |-> <<>>]
+\* def name(params): body   as a statement of a function body (a nested function).  The fragment's
+\* nested functions are closed: they use their own parameters and locals only.
+DefS(name, params, body) == [S("def", name, "", <<>>, "") EXCEPT !.ps = params, !.b = body]
 Asg(x, e)          == S("assign", x, "", <<e>>, "")        \* x = e
 Set(r, f, e)       == S("setattr", f, "", <<r, e>>, "")    \* r.f = e
 Aug(r, f, op, e)   == S("augattr", f, op, <<r, e>>, "")    \* r.f op= e
@@ -95,6 +98,14 @@ HasDef(P, name) == \E i \in DOMAIN P.defs : P.defs[i].name = name
 DefOf(P, name) == P.defs[CHOOSE i \in DOMAIN P.defs : P.defs[i].name = name]
 HasMethod(P, c, m) == HasDef(P, c) /\ \E i \in DOMAIN DefOf(P, c).methods : DefOf(P, c).methods[i].name = m
 Method(P, c, m) == LET ms == DefOf(P, c).methods IN ms[CHOOSE i \in DOMAIN ms : ms[i].name = m]
+\* the bodies of all functions and methods; the nested function called name (searched one level deep)
+Bodies(P) == UNION {IF P.defs[i].kind = "class" THEN {P.defs[i].methods[j].body : j \in DOMAIN P.defs[i].methods}
+                    ELSE {P.defs[i].body} : i \in DOMAIN P.defs}
+NestedDefs(body) == {body[i] : i \in {j \in DOMAIN body : body[j].k = "def"}}
+HasLocalFn(P, name) == \E b \in Bodies(P) : \E st \in NestedDefs(b) : st.s = name
+LocalFn(P, name) ==
+  LET st == CHOOSE st \in UNION {NestedDefs(b) : b \in Bodies(P)} : st.s = name
+  IN [kind |-> "func", name |-> name, params |-> st.ps, body |-> st.b, methods |-> <<>>]
 
 (* ------------------------------------------------------------------ *)
 (* Static types by naming convention of the pools (only used to tag   *)
@@ -126,6 +137,7 @@ ClsV(c)  == Val("cls", 0, c)
 FunV(f)  == Val("fun", 0, f)
 BoolV(b) == Val("bool", IF b THEN 1 ELSE 0, "")
 ErrV     == Val("err", 0, "")
+LFunV(f) == Val("lfun", 0, f)            \* a nested function, by name (names of nested functions are unique)
 
 EmptyD == [x \in {} |-> NoneV]
 Bind(d, x, v) == [y \in DOMAIN d \cup {x} |-> IF y = x THEN v ELSE d[y]]
@@ -178,6 +190,7 @@ Eval(P, e, env, h, out) ==
                       IN R(IF r.v.t = "err" THEN ErrV ELSE RefV(ref), r.h, r.out)
                  ELSE IF ar.vs = <<>> THEN R(RefV(ref), h1, ar.out) ELSE R(ErrV, h1, ar.out)
             ELSE IF fr.v.t = "fun" THEN CallF(P, DefOf(P, fr.v.s), ar.vs, ar.h, ar.out)
+            ELSE IF fr.v.t = "lfun" /\ HasLocalFn(P, fr.v.s) THEN CallF(P, LocalFn(P, fr.v.s), ar.vs, ar.h, ar.out)
             ELSE IF fr.v.t = "ref" /\ HasMethod(P, ar.h[fr.v.n].c, "__call__")
               THEN CallF(P, Method(P, ar.h[fr.v.n].c, "__call__"), <<fr.v>> \o ar.vs, ar.h, ar.out)
             ELSE R(ErrV, ar.h, ar.out)
@@ -245,6 +258,7 @@ Step(P, s, env, h, out) ==
             ELSE LET x1 == StoreTarget(P, s.xs[1], v.v, env, v.h, v.out)
                  IN IF x1.stop = "err" THEN x1
                     ELSE StoreTarget(P, s.xs[2], v.v, x1.env, x1.h, x1.out)
+    [] s.k = "def" -> X(Bind(env, s.s, LFunV(s.s)), h, out, NoneV, "")
     [] OTHER -> X(env, h, out, NoneV, "")
 
 Exec(P, ss, i, env, h, out) ==
@@ -276,11 +290,14 @@ IntTok(n) == CASE n = 0 -> "0" [] n = 1 -> "1" [] n = 2 -> "2" [] n = 3 -> "3" [
                [] n = 6 -> "6" [] n = 7 -> "7" [] n = 8 -> "8" [] n = 9 -> "9" [] OTHER -> ToString(n)
 AugTok(op) == CASE op = "+" -> "+=" [] op = "*" -> "*=" [] op = "-" -> "-=" [] op = "//" -> "//=" [] OTHER -> "?="
 \* context: module, import style, enclosing class, enclosing function and its parameters
-Ctx(mod, im, self, fn, params) == [mod |-> mod, imp |-> im, self |-> self, fn |-> fn, params |-> params]
+\* (outer: the method a nested function sits in, "" otherwise)
+Ctx(mod, im, self, fn, params) ==
+  [mod |-> mod, imp |-> im, self |-> self, fn |-> fn, params |-> params, outer |-> ""]
 
 ModPrefix(c) == IF c.mod = "b" /\ c.imp = "import" THEN <<Tk("a"), Tk(".")>> ELSE <<>>
 VarTok(x, c) ==
-  IF c.fn # "" /\ x \notin c.params THEN T(x, <<"local", c.self, c.fn, x>>)
+  IF c.outer # "" THEN T(x, <<IF x \in c.params THEN "nparam" ELSE "nlocal", c.self, c.outer, c.fn, x>>)
+  ELSE IF c.fn # "" /\ x \notin c.params THEN T(x, <<"local", c.self, c.fn, x>>)
   ELSE IF c.fn # "" THEN T(x, <<"param", c.self, c.fn, x>>)
   ELSE Tk(x)
 
@@ -316,18 +333,24 @@ TokS(s, c) ==
     [] s.k = "chain2"  -> TokE(s.xs[1], c) \o <<Tk("=")>> \o TokE(s.xs[2], c) \o <<Tk("=")>> \o TokE(s.xs[3], c)
     [] OTHER -> <<Tk("pass")>>
 
-RECURSIVE TokBody(_, _, _)
-TokBody(ss, i, c) ==
-  IF i > Len(ss) THEN <<>>
-  ELSE TokS(ss[i], c)
-       \o (IF ss[i].d = "semi" /\ i < Len(ss) THEN <<Tk(";")>>
-           ELSE (IF ss[i].d = "comment" THEN <<Tk("#c")>> ELSE <<>>) \o <<Tk("NL")>>)
-       \o TokBody(ss, i + 1, c)
-
 RECURSIVE TokParams(_, _, _)
 TokParams(ps, i, c) ==
   IF i > Len(ps) THEN <<>>
   ELSE <<VarTok(ps[i], c)>> \o (IF i < Len(ps) THEN <<Tk(",")>> ELSE <<>>) \o TokParams(ps, i + 1, c)
+
+RECURSIVE TokBody(_, _, _)
+\* a nested def: its name is a local of the enclosing function (same tag as its uses)
+TokNested(st, c) ==
+  LET ci == [Ctx(c.mod, c.imp, c.self, st.s, Range(st.ps)) EXCEPT !.outer = c.fn]
+  IN <<Tk("def"), VarTok(st.s, c), Tk("(")>> \o TokParams(st.ps, 1, ci) \o <<Tk(")"), Tk(":"), Tk("NL"), Tk("IN")>>
+     \o TokBody(st.b, 1, ci) \o <<Tk("DE")>>
+TokBody(ss, i, c) ==
+  IF i > Len(ss) THEN <<>>
+  ELSE IF ss[i].k = "def" THEN TokNested(ss[i], c) \o TokBody(ss, i + 1, c)
+  ELSE TokS(ss[i], c)
+       \o (IF ss[i].d = "semi" /\ i < Len(ss) THEN <<Tk(";")>>
+           ELSE (IF ss[i].d = "comment" THEN <<Tk("#c")>> ELSE <<>>) \o <<Tk("NL")>>)
+       \o TokBody(ss, i + 1, c)
 
 TokFunc(f, c0) ==
   LET c == Ctx(c0.mod, c0.imp, c0.self, f.name, Range(f.params))
@@ -390,10 +413,12 @@ ClassNames(P, c) ==
 
 (* ------------------------------------------------------------------ *)
 (* The refactorings on abstract programs.  q is the request:          *)
-(*   [kind, tgt (denotation of the target), cls, name, new, glob]     *)
+(*   [kind, tgt (denotation of the target), cls, name, new, glob,     *)
+(*    host]                                                           *)
 (* ------------------------------------------------------------------ *)
 Req(kind, tgt, cls, name, new, glob) ==
   [kind |-> kind, tgt |-> tgt, cls |-> cls, name |-> name, new |-> new, glob |-> glob,
+   host |-> "",      \* for a target inside a nested function: the method the nested function sits in
    get |-> IF kind = "enc" THEN "get_" \o name ELSE "", set |-> IF kind = "enc" THEN "set_" \o name ELSE ""]
 NoReq == Req("", <<>>, "", "", "", FALSE)
 
@@ -556,9 +581,10 @@ MoClass(q, f) ==
 \* FzBody maps var self -> self.self as well because "self" is one of the names
 
 Refusable(q, P) ==
-  \* a request whose target is legitimate but for which no behaviour-preserving
-  \* result exists in the fragment: it has to be refused
-  q.kind = "ltf" /\ q.name \in ClassNames(P, q.cls)
+  \* a request for which no behaviour-preserving result exists in the fragment: it has to be
+  \* refused.  LocalToField on a name the class already has; LocalToField on a local of a function
+  \* nested in a method (it is not a local of a method: there is no object to hold the field)
+  q.kind = "ltf" /\ (q.host # "" \/ q.name \in ClassNames(P, q.cls))
 
 Refactor(q, P) ==
   LET tdefs == [i \in DOMAIN P.defs |-> TrDef(q, P, P.defs[i])]
@@ -580,6 +606,22 @@ Refactor(q, P) ==
                                           ELSE tdefs[i]],
                         !.a = ta, !.b = tb,
                         !.bnames = IF q.glob /\ P.bnames # <<>> THEN @ \o <<q.new>> ELSE @]
+       [] q.kind = "mo" /\ q.host # "" ->
+            \* a function nested in method q.host of class q.cls: its body becomes the call of the
+            \* method object, the new class goes after the TOP-LEVEL definition that contains it
+            LET f == LocalFn(P, q.name)
+                newbody == <<Ret(Call(Call(K(q.new), VarsOf(f.params)), <<>>))>>
+                defs1 == [i \in DOMAIN P.defs |->
+                            IF P.defs[i].name = q.cls
+                            THEN [P.defs[i] EXCEPT !.methods =
+                                    [j \in DOMAIN @ |->
+                                       IF @[j].name = q.host
+                                       THEN [@[j] EXCEPT !.body =
+                                               [k \in DOMAIN @ |-> IF @[k].k = "def" /\ @[k].s = q.name
+                                                                   THEN [@[k] EXCEPT !.b = newbody] ELSE @[k]]]
+                                       ELSE @[j]]]
+                            ELSE P.defs[i]]
+            IN [P EXCEPT !.defs = InsertAfter(defs1, q.cls, MoClass(q, f))]
        [] q.kind = "mo" ->
             LET f == IF q.cls = "" THEN DefOf(P, q.name) ELSE Method(P, q.cls, q.name)
                 newbody == <<Ret(Call(Call(K(q.new), VarsOf(f.params)), <<>>))>>
@@ -593,7 +635,7 @@ Refactor(q, P) ==
                             ELSE P.defs[i]]
             IN [P EXCEPT !.defs = InsertAfter(defs1, top, MoClass(q, f))]
        [] q.kind = "ltf" ->
-            IF Guards /\ Refusable(q, P) THEN P
+            IF Refusable(q, P) /\ (Guards \/ q.host # "") THEN P
             ELSE [P EXCEPT !.defs = [i \in DOMAIN @ |->
                     IF @[i].name = q.cls
                     THEN [@[i] EXCEPT !.methods =
@@ -673,7 +715,14 @@ Variants(f) ==
                                                      Ret(B("-", x, y))>>)>>, ""),
                        Var(<<ClassC(<<MethM(MB1)>>),
                              Fn("fn", <<"x", "y">>, <<Pr(<<x>>), AugV("y", "+", x), Ret(y)>>),
-                             Fn("g0", <<>>, <<Pr(<<I(7)>>)>>)>>, "") >>
+                             Fn("g0", <<>>, <<Pr(<<I(7)>>)>>)>>, ""),
+                       \* a function nested in a method that is followed by further members of the class
+                       \* (the constructor among them): targets two levels deep
+                       Var(<<Class("C", <<MethM(<<DefS("h", <<"y">>, <<Asg("t", B("*", y, I(2))), AugV("y", "+", I(1)),
+                                                                       Ret(B("+", t, y))>>),
+                                                 Ret(B("+", Call(V("h"), <<x>>), A(self, "f")))>>),
+                                         InitC, Fn("n", <<"self">>, <<Ret(A(self, "g"))>>)>>),
+                             Fn("fn", <<"x", "y">>, <<Ret(B("+", x, y))>>)>>, "") >>
     [] f = "ltf" -> << Var(<<ClassC(<<MethM(<<Asg("t", B("+", x, A(self, "f"))), AugV("t", "+", I(1)),
                                              Ret(B("*", t, I(2)))>>)>>)>>, ""),
                        Var(<<ClassC(<<MethM(<<Asg("t", x), Asg("u", B("+", t, A(self, "g"))),
@@ -681,6 +730,12 @@ Variants(f) ==
                        Var(<<ClassC(<<Fn("m", <<"this", "x">>,
                                          <<Asg("t", B("*", x, A(V("this"), "f"))), Set(V("this"), "g", t),
                                            Ret(B("+", t, A(V("this"), "g")))>>)>>)>>, ""),
+                       \* nested functions (with and without a parameter) in the method: their locals
+                       \* are not method locals
+                       Var(<<ClassC(<<MethM(<<DefS("h", <<"y">>, <<Asg("t", B("*", y, I(2))), Ret(B("+", t, I(1)))>>),
+                                             DefS("k0", <<>>, <<Asg("t", I(3)), Ret(t)>>),
+                                             Asg("u", B("+", Call(V("h"), <<x>>), Call(V("k0"), <<>>))),
+                                             Ret(B("+", V("u"), A(self, "f")))>>)>>)>>, ""),
                        Var(<<ClassC(<<MethM(<<Asg("g", B("+", x, I(1))),
                                              Ret(B("+", V("g"), A(self, "f")))>>)>>)>>, "collide"),
                        Var(<<ClassC(<<MethM(<<Asg("m", B("+", x, I(1))), Ret(V("m"))>>)>>)>>, "collide") >>
@@ -736,7 +791,7 @@ PoolOf(f) ==
         Ent(<<Pr(<<Call(F("fn"), <<A(o, "f"), MC(o, "m", <<I(1)>>)>>)>>)>>, "", {}),
         Ent(<<Asg("w", Call(F("fn"), <<I(2), I(2)>>)), Pr(<<B("+", V("w"), I(1))>>)>>, "", {}),
         Ent(<<Ex(Call(F("g0"), <<>>))>>, "", {2}),
-        Ent(<<Pr(<<MC(o, "n", <<>>), Call(F("fn"), <<KW("x", I(2)), KW("y", I(3))>>)>>)>>, "", {1}) >>
+        Ent(<<Pr(<<MC(o, "n", <<>>), Call(F("fn"), <<KW("x", I(2)), KW("y", I(3))>>)>>)>>, "", {1, 3}) >>
     [] f = "ltf" -> <<
         Ent(<<Pr(<<MC(o, "m", <<I(1)>>)>>)>>, "", {}),
         Ent(<<Pr(<<MC(o, "m", <<A(o, "f")>>)>>)>>, "", {}),
@@ -789,7 +844,12 @@ Requests(f, P) ==
     [] f = "fac" -> {Req("fac", <<"class", "C">>, "C", "C", "create", gl) : gl \in BOOLEAN}
     [] f = "mo"  -> {Req("mo", <<"func", n>>, "", n, "MO", FALSE) : n \in GlobalFuncs(P)}
                     \cup {Req("mo", <<"method", "C", "m">>, "C", "m", "MO", FALSE)}
+                    \cup {[Req("mo", <<"local", "C", "m", st.s>>, "C", st.s, "MO", FALSE) EXCEPT !.host = "m"] :
+                            st \in NestedDefs(Method(P, "C", "m").body)}
     [] f = "ltf" -> {Req("ltf", <<"local", "C", "m", n>>, "C", n, "m", FALSE) : n \in FuncLocals(Method(P, "C", "m"))}
+                    \cup UNION {{[Req("ltf", <<"nlocal", "C", "m", st.s, n>>, "C", n, st.s, FALSE) EXCEPT !.host = "m"] :
+                                   n \in {st.b[i].s : i \in {j \in DOMAIN st.b : st.b[j].k = "assign"}} \ Range(st.ps)} :
+                                 st \in NestedDefs(Method(P, "C", "m").body)}
     [] f = "uf"  -> {Req("uf", <<"func", n>>, "", n, "", FALSE) :
                        n \in {g \in GlobalFuncs(P) : UfShape(DefOf(P, g)) # "other"}}
     [] OTHER -> {}
